@@ -133,4 +133,16 @@ META["C16"] = dict(
         "judged by Accept in Trace_Socks5.tla; a tunnel opened before each batch must still work afterwards.",
    technique="TLA+ reference function (Socks5.tla) + TLC enumeration of the whole abstract case space, one real connection per case + TLC trace validation",
    design_ref="DESIGN.md 3/C16")
+META["C17"] = dict(
+   text="HttpProxy.tla transcribes the REQUIRED case analysis (which authority decides: CONNECT authority, absolute URI, else Host "
+        "header; default ports 80/443; what the origin must receive; when 200 may be answered) as a reference function over an "
+        "abstract request alphabet. TLC enumerates every relevant case (562), each becomes one real connection to "
+        "start_http_proxy_server in front of the real Client and server; the dialled socket comes from the cfg-guarded dial hook, "
+        "the forwarded bytes from a recording origin on a per-case loopback address; Trace_HttpProxy.tla judges each observation "
+        "with Accept (authority and port, same method / origin-form target / version, other header lines unchanged in order, "
+        "exactly one normalised Host header, bytes behind the header forwarded exactly once, 200 only with a tunnel). This is the "
+        "property the technique fits least: the verdict is a per-case comparison with a transcribed reference, exhaustive over the "
+        "abstract classes only.",
+   technique="TLA+ reference function (HttpProxy.tla) + TLC enumeration of the whole abstract case space, one real connection per case + TLC trace validation",
+   design_ref="DESIGN.md 3/C17")
 NOT_YET = "check not built yet in this round (planned: DESIGN.md section 3); not claimed"
